@@ -18,8 +18,7 @@ verus! {
 //@include spec/seqlemmas.rs
 pub mod spec {
     use super::*;
-//@item src/spec.rs | const ZIP64_BYTES_THR
-//@item src/spec.rs | const ZIP64_ENTRY_THR
+//@include common/spec_consts.rs
 //@item src/spec.rs | struct CentralDirectoryEnd
 //@item src/spec.rs | struct Zip64CentralDirectoryEndLocator
 //@item src/spec.rs | struct Zip64CentralDirectoryEnd
